@@ -51,11 +51,7 @@ fn reset(fail_at: usize) {
     unsafe {
         DSO_N = 0;
         DSO_FAIL_AT = fail_at;
-        let mut k = 0;
-        while k < CALLS {
-            DSO_LEN[k] = usize::MAX;
-            k += 1;
-        }
+        DSO_LEN = [usize::MAX; CALLS];
     }
 }
 fn sym_call(k: usize) {
